@@ -78,8 +78,9 @@ type Config struct {
 	// Peer: a second, independent scenario (its own workload, Services and Rollout, SAME object names) in
 	// namespace PeerNS of the same cluster, reconciled by the same controller instances (C19). Its actions are
 	// prefixed "b:", the first scenario's "a:"; tick and env.gc are cluster-wide.
-	Peer   *Config `json:"peer,omitempty"`
-	PeerNS string  `json:"peerNS,omitempty"`
+	Peer   *Config  `json:"peer,omitempty"`
+	PeerNS string   `json:"peerNS,omitempty"`
+	PairOf []string `json:"pairOf,omitempty"` // names of two ordinary configuration files (same directory): this one = first + peer = second
 }
 
 // World is one simulated cluster with the real controllers wired to it.
@@ -491,7 +492,7 @@ func (w *World) Do(action string, captureMids bool) (res Result) {
 			res.Action = action
 			return res
 		}
-		// cluster-wide actions (tick, env.gc): the peer's queue timers fire as well
+		// the cluster-wide action (tick): the peer's queue timers fire as well
 		if action == "tick" {
 			w.Peer.Q.RoPending, w.Peer.Q.BrPending = w.Peer.Q.RoPending || w.Peer.Q.RoTimer, w.Peer.Q.BrPending || w.Peer.Q.BrTimer
 			w.Peer.Q.RoTimer, w.Peer.Q.BrTimer = false, false
@@ -650,6 +651,9 @@ func (w *World) garbageCollect() {
 		}
 	}
 	for _, k := range w.S.Keys() {
+		if k.Namespace != w.NS { // each scenario's garbage is collected by its own env.gc action
+			continue
+		}
 		md := metaOf(toMap(w.S.Raw(k)))
 		refs, _ := md["ownerReferences"].([]interface{})
 		for _, r := range refs {
@@ -680,7 +684,7 @@ func (w *World) gcPending() bool {
 	uids := map[string]bool{}
 	var owned []Key
 	for k, raw := range w.S.objs {
-		if bytes.Contains(raw, []byte(`"ownerReferences"`)) {
+		if k.Namespace == w.NS && bytes.Contains(raw, []byte(`"ownerReferences"`)) {
 			owned = append(owned, k)
 		}
 		// the object's own uid is the last "uid" of its metadata that is not inside ownerReferences;
@@ -831,7 +835,7 @@ func (w *World) Enabled() []string {
 	global := map[string]bool{}
 	for i, x := range []*World{w, w.Peer} {
 		for _, a := range x.enabledOne() {
-			if a == "tick" || a == "env.gc" {
+			if a == "tick" {
 				global[a] = true
 				continue
 			}
@@ -934,11 +938,23 @@ func (w *World) userEnabled(a string, ro *v1beta1.Rollout) bool {
 }
 
 // tickUseful: time passing changes something only if some timestamp is still fresh.
+// foreignKey: the grace-map key belongs to the other scenario of a pair (and not to this one)
+func (w *World) foreignKey(k string) bool {
+	other := w.Peer
+	if w.parent != nil {
+		other = w.parent
+	}
+	return other != nil && other.own[k] && !w.own[k]
+}
+
 func (w *World) tickUseful() bool {
 	if w.Cfg.Queue && (w.Q.RoTimer || w.Q.BrTimer) {
 		return true
 	}
-	for _, m := range grace.DumpForVerif() {
+	for k, m := range grace.DumpForVerif() {
+		if w.foreignKey(k) {
+			continue
+		}
 		for _, t := range m {
 			if time.Since(t) < time.Duration(BigGrace)*time.Second {
 				return true
